@@ -74,6 +74,8 @@ def reader_table(R):
 def run(rep, repo, tier):
     for k, v in RULES.items():
         rep.rule(k, v)
+    from ..defined import check_defined
+    check_defined(rep, repo, 'C09.R5', [repo.method(c_, 'generate_instances', required=False) for c_ in ('Generator_ha_sm_hr', 'Generator_spa')] + [repo.method('Generator', '__init__', required=False)] + [repo.function('import_model', required=False)], 'generator and reader')
     rep.assumptions += ['"both solving modes then produce a correct result" is C01/C02/C07 on the loaded model; not re-decided here']
     for cls, na in (('Generator_ha_sm_hr', 2), ('Generator_spa', 3)):
         try:
